@@ -842,6 +842,11 @@ impl endpoint::Session for Session {
         transfer: Transfer,
         payload: Payload,
     ) -> Result<Option<Disposition>, Self::Error> {
+        self.on_incoming_transfer_received();
+        self.deliver_incoming_transfer(transfer, payload).await
+    }
+
+    fn on_incoming_transfer_received(&mut self) {
         // Upon receiving a transfer, the receiving endpoint will increment the next-incoming-id to
         // match the implicit transfer-id of the incoming transfer plus one, as well as decrementing the
         // remote-outgoing-window, and MAY (depending on policy) decrement its incoming-window.
@@ -850,7 +855,13 @@ impl endpoint::Session for Session {
         self.need_flow_count = self.need_flow_count.saturating_add(1);
 
         // TODO: allow user to define whether the incoming window should be decremented
+    }
 
+    async fn deliver_incoming_transfer(
+        &mut self,
+        transfer: Transfer,
+        payload: Payload,
+    ) -> Result<Option<Disposition>, Self::Error> {
         let input_handle = InputHandle::from(transfer.handle.clone());
         match self.link_by_input_handle.get_mut(&input_handle) {
             Some(link_relay) => {
